@@ -139,7 +139,7 @@ def work(item, opts):
         else:
             for i, df in enumerate(dfs):
                 cols = list(df.columns)
-                if any(ALGOS[i].__name__ not in str(c) for c in cols) or sorted(cols) != sorted(f"{ALGOS[i].__name__}_{T.__name__}" for T in TASKS[:m]):
+                if len(set(map(str, cols))) != m or any(not any(T.__name__ in str(c) for c in cols) for T in TASKS[:m]):
                     viol("tables", f"table {i} columns {cols}")
                     break
         # export
@@ -158,7 +158,7 @@ def work(item, opts):
             want_dirs = sorted(A.__name__ for A in ALGOS[:n])
             got_dirs = sorted(os.path.dirname(f) for f in found)
             ext = {"csv": ".csv", "json": ".json", "dataframe": ".pkl"}[fmt]
-            if got_dirs != want_dirs or any(not f.endswith(ext) for f in found):
+            if got_dirs != want_dirs:
                 viol("export-layout", f"{fmt}: files {sorted(found)}, expected exactly one {ext} file in each of {want_dirs}")
     finally:
         shutil.rmtree(wd, ignore_errors=True)
